@@ -58,7 +58,11 @@ Proof. intros H dbg hp hpo hd HOK u Hr. exact (H dbg hp hpo hd HOK u (Reachable2
 
 (* the mutators of C02_Reach.op for which L2 is proved on the four canonical forms *)
 Definition canon_op (o : op) : bool :=
-  match o with OSetFragment _ | OSetQuery _ | OSetPort _ | OSetPassword _ | OSetUsername _ => true | _ => false end.
+  match o with
+  | OSetFragment _ | OSetQuery _ | OSetPort _ | OSetPassword _ | OSetUsername _
+  | OQUsername _ | OQPassword _ | OQSearch _ | OQHash _ => true   (* the four quirks setters that are wrappers of these *)
+  | _ => false
+  end.
 
 Lemma tail_op_canon o : tail_op o = true -> canon_op o = true.
 Proof. destruct o; try discriminate; reflexivity. Qed.
@@ -116,6 +120,17 @@ Proof.
       exact (set_password_Canon dbg hp hpo hd u p u' s IH Ha Es Hb).
     + destruct (option_map_fst_some _ _ Ho) as [s0 Es].
       exact (set_username_Canon dbg hp hpo hd u s u' s0 IH Ha Es Hb).
+    + destruct (option_map_fst_some _ _ Ho) as [s0 Es]. unfold q_set_username in Es.
+      exact (set_username_Canon dbg hp hpo hd u s u' s0 IH Ha Es Hb).
+    + destruct (option_map_fst_some _ _ Ho) as [s0 Es]. unfold q_set_password in Es.
+      apply (set_password_Canon dbg hp hpo hd u _ u' s0 IH) in Es; [exact Es | | exact Hb].
+      destruct s; [exact I | exact Ha].
+    + unfold q_set_search in Ho. apply (set_query_Canon dbg hp hpo hd HRT u _ u' IH) in Ho; [exact Ho | | exact Hb].
+      destruct s as [|c r]; [exact I|]. assert (usv_list r) as Hr' by (apply usv_cons in Ha; tauto).
+      destruct c as [|pp]; [exact Ha|]. do 7 (try (destruct pp as [pp|pp|]; try exact Ha)). exact Hr'.
+    + unfold q_set_hash in Ho. apply (set_fragment_Canon dbg hp hpo hd HRT u _ u' IH) in Ho; [exact Ho | | exact Hb].
+      destruct s as [|c r]; [exact I|]. assert (usv_list r) as Hr' by (apply usv_cons in Ha; tauto).
+      destruct c as [|pp]; [exact Ha|]. do 7 (try (destruct pp as [pp|pp|]; try exact Ha)). exact Hr'.
   - exact (qpm_Canon dbg hp hpo hd HRT u ops u' IH Hops Hs Hb).
 Qed.
 
